@@ -672,3 +672,49 @@ def park_wake(ctx):
     if n == 0:
         out.append(undecided('PARK-wake', 'floor:WaitingForPoll-park', 'no function parks the queue in WaitingForPoll (expected SchedulerFuture::drain_queue)'))
     return out
+
+
+def relation_by_root(ctx):
+    """{named function: {(from, to, role)}} - non-identity transitions, closures attributed to the function they are rooted in."""
+    rel = defaultdict(set)
+    for (f, s, s2, role) in transitions(ctx):
+        if s == s2:
+            continue
+        fo = ctx.F.fn(f)
+        root = (fo.root or f) if fo is not None else f
+        rel[root].add((s, s2, role))
+    return rel
+
+
+def tr_base(ctx):
+    """TR-base: the transition relation extracted from each protocol function is the reviewed one (dsa/tr_baseline.json): no transition was
+    added (a state handled in a new way) and none disappeared (a state no longer handled).  Regression rule: the relation of the pinned tree
+    is what PA-excl / PA-stuck / PA-wake and the TR rules were checked against."""
+    import json
+    import os
+    out = _problems(ctx, 'TR-base')
+    path = os.path.join(os.path.dirname(os.path.abspath(__file__)), 'tr_baseline.json')
+    if not os.path.exists(path):
+        return out + [undecided('TR-base', 'baseline', 'dsa/tr_baseline.json is missing')]
+    base = json.load(open(path))['relation']
+    cur = relation_by_root(ctx)
+    for root in sorted(set(base) | set(cur)):
+        b = set(tuple(x) for x in base.get(root, []))
+        c = set(cur.get(root, set()))
+        key = short(root)
+        if root not in base:
+            if ctx.F.fn(root) is not None and c:
+                out.append(bad('TR-base', key + '|new-writer', '%s now changes the queue state (%s): no function outside the reviewed set writes the state' % (short(root), ', '.join('%s->%s' % (a, d) for a, d, r in sorted(c))), fn=root))
+            continue
+        if ctx.F.fn(root) is None:
+            continue        # the function is gone: an anchor question, asked elsewhere
+        added = sorted(c - b)
+        gone = sorted(b - c)
+        if not added and not gone:
+            out.append(ok('TR-base', key, '%d transition(s) as reviewed' % len(b), fn=root))
+            continue
+        for (a, d, r) in added[:3]:
+            out.append(bad('TR-base', '%s|+%s->%s' % (key, a, d), '%s now moves a queue from %s to %s (%s write): this transition is not part of the reviewed protocol' % (short(root), a, d, r), fn=root))
+        for (a, d, r) in gone[:3]:
+            out.append(bad('TR-base', '%s|-%s->%s' % (key, a, d), '%s no longer moves a queue from %s to %s: a state the reviewed protocol handled here is now left as it is or handled differently' % (short(root), a, d), fn=root))
+    return out
